@@ -39,6 +39,10 @@ Definition Qsq (x : Q) : Q := x * x.
 Definition tol : Q := 1 # 1000000000.
 Definition close (a b : Q) : bool := Qle_bool (Qabs (a - b)) (tol * (Qabs a + Qabs b)).
 
+(** the same with an extra magnitude [s] (for sums with cancellation: the error of a float mean is
+    relative to the size of the data, not of the mean) *)
+Definition close_at (s a b : Q) : bool := Qle_bool (Qabs (a - b)) (tol * (Qabs a + Qabs b + s)).
+
 Fixpoint all2 {A B} (f : A -> B -> bool) (a : list A) (b : list B) : bool :=
   match a, b with
   | [], [] => true
@@ -210,6 +214,17 @@ Definition metric_pow (k : mkind) (u v : list Q) : Q :=
   | MOracle tbl => tbl_lookup u tbl
   end.
 
+(** scipy validates the length of weight / variance vectors against the width (ValueError) *)
+Definition kw_ok (k : mkind) (wd : nat) : bool :=
+  match k with
+  | MEuclid (Some w) | MMink _ (Some w) => Nat.eqb (length w) wd
+  | MSeuclid V => Nat.eqb (length V) wd
+  | _ => true
+  end.
+
+Definition cdist_checked (k : mkind) (XA XB : mat) : option (@dres Q) :=
+  if kw_ok k (width XB) then cdist metric_pow k XA XB else None.
+
 (** ** correspondence interface for plain Distance nodes *)
 
 (** the implementation's output (binary64 values as rationals); [None] = ValueError *)
@@ -243,7 +258,7 @@ Definition callable_dist (k : mkind) (two_d : bool) (X Y : mat) : option (@dres 
 
 Definition d_model (c : dcase) : option (@dout Q) :=
   match d_callable c with
-  | O => distance_node metric_pow (d_kind c) (d_summaries c) (d_observed c)
+  | O => distance_as_discrepancy (cdist_checked (d_kind c)) (d_summaries c) (d_observed c)
   | S O => distance_as_discrepancy (callable_dist (d_kind c) false) (d_summaries c) (d_observed c)
   | _ => distance_as_discrepancy (callable_dist (d_kind c) true) (d_summaries c) (d_observed c)
   end.
@@ -273,7 +288,7 @@ Definition well_shaped (M : nat) (summaries observed : list arr) : bool :=
     row [i] of the stacked summaries and the stacked observed row *)
 Definition d_ok (c : dcase) : bool :=
   let M := match d_summaries c with [] => 0%nat | a :: _ => length (as_cols a) end in
-  if well_shaped M (d_summaries c) (d_observed c) then
+  if well_shaped M (d_summaries c) (d_observed c) && kw_ok (d_kind c) (length (orow (d_observed c))) then
     match d_impl c with
     | Some (D1 v) =>
         Nat.eqb (length v) M
